@@ -323,6 +323,13 @@ def execute(case):
                         probed[pk] = got0 is not None and _same(got0, want, form, instant)
                     if probed[pk]:
                         kind = "lost-by-depth-limit"
+                    elif form["t"].startswith("abs:monthname+hour-only-clock") and got_k \
+                            and got_k[0] == "T" and got_k[2:4] == want[2:4] \
+                            and (got_k[4] is None or got_k[4] == want[4]) \
+                            and (got_k[4] is None or got_k[1] != want[1]):
+                        # one fingerprint for the known ranking defect of this family: written
+                        # day and month kept, the year and / or the whole clock dropped
+                        kind = "year-or-clock-dropped"
                     viol(prop + ".value", form["t"] + "|" + kind,
                          "event %d: %r at %s (%s ts, latent=%s) -> %s, calendar model: %s"
                          % (i, form["s"], instant, "omitted" if ts_arg is None else "explicit",
@@ -545,6 +552,15 @@ def _session(prop, rng, n_req):
             # table is the specification of "a part of day the library itself knows")
             h0 = core.use_repo()["types"].pod_hours[f["p"][0]][0] % 24
             nt = _clock_instant(rng, h0, 0, lo, hi)
+            evs.append({"ev": "set", "to": fmt_ts(nt), "boundary": True})
+            t = nt
+        elif prop == "C05" and f.get("mil_clock") and f["mil_clock"][0] == 20 and r < 0.5:
+            # the reference year (or, from October on, the year after it) spells the digits
+            # of the clock
+            yr = 2000 + f["mil_clock"][1]
+            nt = _boundary_instant(rng, lo, hi)
+            nt = nt.replace(year=yr, day=min(nt.day, 28)) if rng.random() < 0.6 else \
+                nt.replace(year=yr - 1, month=rng.choice([10, 11, 12]), day=min(nt.day, 28))
             evs.append({"ev": "set", "to": fmt_ts(nt), "boundary": True})
             t = nt
         elif prop == "C05" and f["c"] == "abs" and r < 0.18:
